@@ -615,7 +615,7 @@ func genCollTarget(t *rapid.T, c Case, cfg *gen.TDCfg, share func(*rapid.T, *Cas
 	case 3:
 		c.T = &gen.TD{Kind: "array", N: rapid.IntRange(1, 3).Draw(t, "n"), Elem: validatedElem(t)}
 	default:
-		c.T = &gen.TD{Kind: rapid.SampledFrom([]string{"cat:c04_dm", "cat:c04_mi", "cat:c04_ms", "cat:c04_mp", "cat:c04_vl"}).Draw(t, "topcat")}
+		c.T = &gen.TD{Kind: rapid.SampledFrom([]string{"cat:c04_dm", "cat:c04_mi", "cat:c04_ms", "cat:c04_mp", "cat:c04_vl", "cat:c04_nm", "cat:c04_nl", "cat:c04_qm", "cat:c04_ql"}).Draw(t, "topcat")}
 	}
 	ctr := 1000
 	wrapInline(t, c.T, &ctr)
